@@ -865,6 +865,10 @@ func genC15(g engine.G) *engine.Case {
 			}
 			if g.Pct(40) {
 				val.Sub = engine.Pick(g, engine.AllSubs)
+				if g.Pct(20) {
+					// subtype labels are free-form strings, reported back as given
+					val.Sub = engine.Pick(g, []string{"v1 ", " x", "a b", "k=v", "S"})
+				}
 			}
 			_ = usedTS
 			if val.Name != "" {
